@@ -404,7 +404,7 @@ def prop_C18(ctx):
             def o2o_set(s):
                 out = set()
                 for m in vlib.err_msgs(s):
-                    if m in ATTR_SYNTAX_MSGS:
+                    if m in ATTR_SYNTAX_MSGS or m.startswith('unexpected token'):     # syn's own wording: `unexpected token[, expected ..]`
                         out.add('<attribute-syntax>')
                     elif any(p.fullmatch(m) for p in tmpl):
                         out.add(m)
